@@ -90,6 +90,13 @@ def c17_race_run(ctx, tier, seed):
         shutil.rmtree(hb, ignore_errors=True)
 
 PROPS = {
+    "C03": {
+        "level_text": "Theorems (Lean 4 kernel): the NAF digit strings satisfy pos - neg = k with no overlapping digits for EVERY byte string (per-byte identity by exhaustive kernel evaluation, then induction); splitK gives k1 + k2*lambda = k (mod N); (beta*x, y) = lambda*(x, y) on the whole group; ALL 8192 entries of the regenerated base-point table equal (j*256^(31-i))*G (checked in the kernel incrementally, row by row); ScalarBaseMultNonConst returns k*G and ScalarMultNonConst returns k*P as a well-formed (normalised, on-curve or identity) Jacobian triple for every scalar in [0,N) and EVERY point of the curve - the latter using card E = N (proved: Lagrange + at most 2 points per x + no 2-torsion), so every point is a multiple of G; the public key of d is d*G; smul is Mathlib's nsmul. The loops' models run the regenerated formula programs proved correct in C04. Correspondence: corner scalars (0, 1, 2, N-1, N-2, lambda, N-lambda, (N+-1)/2, 2^128+-1, 2^255, halves zero/negative/maximal), random scalars and points with random Z, splitK/naf/mul512 through hooks, every table entry as decoded by the REAL code (thorough: all 8192; quick: every 37th) - Jacobian results compared bit for bit and against the affine specification.",
+        "level_note": "Trusted: Lean kernel + Mathlib group definitions; tools/gotr T2/T3/T4 (regenerated; programs, constants and table executed/compared against the real code); the loop models are hand-written mirrors of curve.go (tied by the correspondence run). Value level (see C04's note). mul512Rsh320Round is modelled as floor((a*b + 2^319)/2^320); its exactness affects only the balance of the split, not correctness (splitK_spec holds for any c1, c2).",
+        "technique": "Lean 4 proof (Secp.Props.C03: loop invariants in Mathlib's curve group, kernel-checked table, card E = N) + differential correspondence of Jacobian results",
+        "trusted_base": COMMON_TRUST + ["tools/gotr T2/T3/T4", "Mathlib WeierstrassCurve.Affine.Point, Lagrange, Cauchy"],
+        "assumptions": [],
+    },
     "C04": {
         "level_text": "Theorems (Lean 4 kernel) about the REGENERATED call-structured formula programs (tools/gotr T2 from curve.go on every run): for EVERY pair of well-formed Jacobian triples - any Z scaling, Z = 1, shared Z, equal points, opposite points, the identity in any encoding - AddNonConst with a distinct result and AddNonConst with the result aliasing the first operand return a well-formed (normalised, on-curve or identity) triple representing the affine sum; DoubleNonConst in place represents 2P (identity when Y = 0, which cannot occur for curve points because -7 is not a cube mod P); ToAffine returns (X/Z^2, Y/Z^3, 1). Each of the four add routines, both doubling routines and the 37-path dispatch are proved path by path (unfold, cast to ZMod P, field_simp, ring). The affine law they are compared with is proved to be Mathlib's WeierstrassCurve.Affine.Point addition (Secp.Proofs.SpecGroup). The same programs are executed by the driver and diffed with the real routines on all relation classes x Z patterns x three alias patterns, the six internal routines through hooks, and off-curve field values.",
         "level_note": "Trusted: Lean kernel + Mathlib's definition of the curve group; tools/gotr T2 (regenerated every run, its programs executed against the real routines). Value level: the programs compute with field values; that the limb code realises each field operation exactly under the magnitudes used is C05 + C16. The aliasing pattern result = p2 (AddNonConst_a011), which no caller in the library uses, is covered by the correspondence run only, not by a theorem. Proofs name paths by index, so a reordering of statements in curve.go can break them although the property holds (reported as no-failing-input-found).",
@@ -98,11 +105,11 @@ PROPS = {
         "assumptions": ["operands are well-formed Jacobian triples (normalised coordinates, on the curve or an identity encoding): the routines' documented contract"],
     },
     "C12": {
-        "level_text": "Theorems (Lean 4 kernel) about a model of ecckd (HMAC-SHA512 and RIPEMD160(SHA256) as parameters): CKDpriv returns exactly BIP32's fields (I_L, I_R, depth+1, fingerprint, child number, key = I_L + k_par mod N as exactly 32 bytes); private child keys always have 32 bytes; hardened-from-public and depth-255 derivations are refused; the accumulated tweak satisfies child = parent + t (mod N) along any path (induction over the path); for a private parent and a non-hardened index, neutering then deriving equals deriving then neutering with the same I_L (conditional on PointSpec, group algebra in Mathlib's curve group; the BIP32 edge case child key = 0 is an explicit hypothesis). Correspondence (oracle table for the hashes): seeds 16..64 bytes, paths up to 8 over {0, 2^31-1, 2^31, 2^32-1, random}, neutering at every position, and a DIRECTED search (plain HMAC, 400 k candidates) for children whose private key has one and two or more leading zero bytes plus their hardened and normal grandchildren.",
-        "level_note": "Conditional on PointSpec for neuter_commutes. HMAC-SHA512, RIPEMD-160 are parameters (oracle). BIP32's rejection of child key 0 / point at infinity is not implemented by the code (needs a SHA-512 preimage to reach; DESIGN.md O2) and appears as a hypothesis.",
+        "level_text": "Theorems (Lean 4 kernel) about a model of ecckd (HMAC-SHA512 and RIPEMD160(SHA256) as parameters): CKDpriv returns exactly BIP32's fields (I_L, I_R, depth+1, fingerprint, child number, key = I_L + k_par mod N as exactly 32 bytes); private child keys always have 32 bytes; hardened-from-public and depth-255 derivations are refused; the accumulated tweak satisfies child = parent + t (mod N) along any path (induction over the path); for a private parent and a non-hardened index, neutering then deriving equals deriving then neutering with the same I_L (via PointSpec, proved in C03; group algebra in Mathlib's curve group; the BIP32 edge case child key = 0 is an explicit hypothesis). Correspondence (oracle table for the hashes): seeds 16..64 bytes, paths up to 8 over {0, 2^31-1, 2^31, 2^32-1, random}, neutering at every position, and a DIRECTED search (plain HMAC, 400 k candidates) for children whose private key has one and two or more leading zero bytes plus their hardened and normal grandchildren.",
+        "level_note": "HMAC-SHA512, RIPEMD-160 are parameters (oracle). BIP32's rejection of child key 0 / point at infinity is not implemented by the code (needs a SHA-512 preimage to reach; DESIGN.md O2) and appears as a hypothesis.",
         "technique": "Lean 4 proof (Secp.Props.C12; induction over paths; group algebra via the Mathlib bridge) + differential correspondence with directed leading-zero search",
-        "trusted_base": COMMON_TRUST + ["hand-written model mirrors the Go control flow; its point operations are the regenerated formula programs", "PointSpec (C03/C04 layer) is assumed by the theorems about points and validated on every run against the independent affine specification"] + ["crypto/hmac+sha512, ripemd160 (oracle)"],
-        "assumptions": ["PointSpec (neuter_commutes only)", "child private key != 0"],
+        "trusted_base": COMMON_TRUST + ["hand-written model mirrors the Go control flow; its point operations are the regenerated formula programs", "PointSpec (what the point routines compute) is a THEOREM: Secp.Props.C03.pointSpec, built on C04 (regenerated formula programs), the kernel-checked table, NAF/endomorphism lemmas and card E = N; it is about value-level execution of the regenerated programs - that limbs realise values is C05+C16"] + ["crypto/hmac+sha512, ripemd160 (oracle)"],
+        "assumptions": ["child private key != 0 (BIP32 edge case the code does not implement)"],
     },
     "C13": {
         "level_text": "Theorems (Lean 4 kernel) about a model of MarshalBinary/UnmarshalBinary: decoding succeeds EXACTLY for 82 bytes with a matching double-SHA256 checksum, a key type consistent with the version and a private key in [1,N-1] or a parsable public key, and returns exactly the encoded fields; wrong length and wrong checksum are reported first; marshal then unmarshal is the identity on every private key the package can produce; the encoding has 82 bytes. Value semantics of a decoded key is structural in the model; for the CODE it is checked by the correspondence run, which overwrites the caller's buffer after every successful decode and re-reads the key (defect F2 was caught this way). Correspondence: valid private/public keys at several depths, each field set to boundary values with a recomputed checksum (all four versions and an unknown one, depth 255, key prefix 0..7 and 255, private key 0, N-1, N, 2^256-1, off-curve x, x >= P), checksum bit flips, lengths 0..100, base58 text form through an oracle.",
@@ -112,11 +119,11 @@ PROPS = {
         "assumptions": [],
     },
     "C15": {
-        "level_text": "Theorems (Lean 4 kernel) about a model of the crypto/elliptic adaptor: for operands that are curve points with coordinates in [0,P) or the (0,0) identity, Add returns the affine group-law sum (incl. equal, opposite and identity operands -> (0,0)), Double returns 2P (unconditionally: its single path is executed symbolically), ScalarMult and ScalarBaseMult return (k mod N)*P for scalars of ANY byte length, IsOnCurve is true exactly on the curve. Conditional on PointSpec except Double and the scalar/bytes lemma. The crypto/ecdsa interoperability half is differential: each run signs here and verifies with crypto/ecdsa (Verify and VerifyASN1) and vice versa, and compares converted keys.",
-        "level_note": "Conditional on PointSpec. big.Int is modelled as a natural number; coordinates outside [0,P) are outside the property's domain (DESIGN.md O7). Interop with crypto/ecdsa is testing, labelled so.",
-        "technique": "Lean 4 proof (Secp.Props.C15, conditional on PointSpec) + differential correspondence incl. crypto/ecdsa interop",
-        "trusted_base": COMMON_TRUST + ["hand-written model mirrors the Go control flow; its point operations are the regenerated formula programs", "PointSpec (C03/C04 layer) is assumed by the theorems about points and validated on every run against the independent affine specification"] + ["math/big", "crypto/ecdsa (interop oracle)"],
-        "assumptions": ["PointSpec"],
+        "level_text": "Theorems (Lean 4 kernel) about a model of the crypto/elliptic adaptor: for operands that are curve points with coordinates in [0,P) or the (0,0) identity, Add returns the affine group-law sum (incl. equal, opposite and identity operands -> (0,0)), Double returns 2P (unconditionally: its single path is executed symbolically), ScalarMult and ScalarBaseMult return (k mod N)*P for scalars of ANY byte length, IsOnCurve is true exactly on the curve. Stated via PointSpec (proved in C03) with unconditional corollaries. The crypto/ecdsa interoperability half is differential: each run signs here and verifies with crypto/ecdsa (Verify and VerifyASN1) and vice versa, and compares converted keys.",
+        "level_note": "big.Int is modelled as a natural number; coordinates outside [0,P) are outside the property's domain (DESIGN.md O7). Interop with crypto/ecdsa is testing, labelled so.",
+        "technique": "Lean 4 proof (Secp.Props.C15, PointSpec proved in C03) + differential correspondence incl. crypto/ecdsa interop",
+        "trusted_base": COMMON_TRUST + ["hand-written model mirrors the Go control flow; its point operations are the regenerated formula programs", "PointSpec (what the point routines compute) is a THEOREM: Secp.Props.C03.pointSpec, built on C04 (regenerated formula programs), the kernel-checked table, NAF/endomorphism lemmas and card E = N; it is about value-level execution of the regenerated programs - that limbs realise values is C05+C16"] + ["math/big", "crypto/ecdsa (interop oracle)"],
+        "assumptions": [],
     },
     "C20": {
         "level_text": "Theorems (Lean 4 kernel): models that make every Go index and slice expression explicit (panic exactly where Go would) never panic for ANY byte string of ANY length and equal the total models used by the other properties - SetByteSlice, ParseCompactSignature, schnorr.ParseSignature, UnmarshalBinary, the NonceRFC6979 key-buffer assembly, ParseDERSignature (C09), ParsePubKey (C08); recovery panics only on the documented misuse. Purity/argument preservation/history-freedom for the CODE: the correspondence run calls every byte-taking entry point (11 of them + the adaptor + FromString) on every length 0..128 with random, all-zero, all-ff and structured contents under recover(), with argument snapshots around each call, in a shuffled order with repeats, and compares every answer with the model's; C17's regenerated facts show no entry point writes shared state.",
@@ -127,18 +134,18 @@ PROPS = {
     },
     "C11": {
         "project": proj_c11,
-        "level_text": "Theorems (Lean 4 kernel) about a model of schnorr/signature.go with BLAKE-256 as a parameter: verification returns nil EXACTLY when m is 32 bytes, Q is on the curve, e = BLAKE-256(r||m) < N and s*G + e*Q is a finite point with even y and x = r (conditional on PointSpec); signing with a given nonce is the README algorithm (nonce negated when R.y is odd, e >= N reported, s = k - e*d); Sign refuses zero keys and wrong message lengths; the 64-byte codec accepts exactly length 64 with r < P, s < N and round-trips. Correspondence (BLAKE-256 answered from an oracle table filled by the real implementation): produced signatures, tampered r/s/m, wrong and off-curve keys, all message lengths, forced nonces through a hook incl. odd-y R and the nonce-not-negated variant, r >= P and s >= N encodings; each verification also compared with a textbook verifier over the affine specification.",
-        "level_note": "Conditional on PointSpec for the point-level theorems. BLAKE-256 is a parameter: its correctness is trusted; the e >= N retry branch (probability 2^-128) is covered by the theorem about the model and by the extracted control flow, not by a real-code execution. 'a produced signature verifies' is exercised on every produced signature by the run.",
-        "technique": "Lean 4 proof (Secp.Props.C11, partly conditional on PointSpec) + differential correspondence with an oracle-table hash",
-        "trusted_base": COMMON_TRUST + ["hand-written model mirrors the Go control flow; its point operations are the regenerated formula programs", "PointSpec (C03/C04 layer) is assumed by the theorems about points and validated on every run against the independent affine specification"] + ["BLAKE-256 implementation (oracle)"],
-        "assumptions": ["PointSpec", "BLAKE-256 returns 32 bytes"],
+        "level_text": "Theorems (Lean 4 kernel) about a model of schnorr/signature.go with BLAKE-256 as a parameter: verification returns nil EXACTLY when m is 32 bytes, Q is on the curve, e = BLAKE-256(r||m) < N and s*G + e*Q is a finite point with even y and x = r (via PointSpec, proved in C03); signing with a given nonce is the README algorithm (nonce negated when R.y is odd, e >= N reported, s = k - e*d); Sign refuses zero keys and wrong message lengths; the 64-byte codec accepts exactly length 64 with r < P, s < N and round-trips. Correspondence (BLAKE-256 answered from an oracle table filled by the real implementation): produced signatures, tampered r/s/m, wrong and off-curve keys, all message lengths, forced nonces through a hook incl. odd-y R and the nonce-not-negated variant, r >= P and s >= N encodings; each verification also compared with a textbook verifier over the affine specification.",
+        "level_note": "PointSpec is proved in C03. BLAKE-256 is a parameter: its correctness is trusted; the e >= N retry branch (probability 2^-128) is covered by the theorem about the model and by the extracted control flow, not by a real-code execution. 'a produced signature verifies' is exercised on every produced signature by the run.",
+        "technique": "Lean 4 proof (Secp.Props.C11, PointSpec proved in C03) + differential correspondence with an oracle-table hash",
+        "trusted_base": COMMON_TRUST + ["hand-written model mirrors the Go control flow; its point operations are the regenerated formula programs", "PointSpec (what the point routines compute) is a THEOREM: Secp.Props.C03.pointSpec, built on C04 (regenerated formula programs), the kernel-checked table, NAF/endomorphism lemmas and card E = N; it is about value-level execution of the regenerated programs - that limbs realise values is C05+C16"] + ["BLAKE-256 implementation (oracle)"],
+        "assumptions": ["BLAKE-256 returns 32 bytes"],
     },
     "C14": {
-        "level_text": "Theorems (Lean 4 kernel): for all private keys a, b in [1,N-1], the secret computed from a and b*G is the 32-byte x coordinate of (a*b mod N)*G, hence both sides agree; every such private key has a finite on-curve public key. The group algebra is done in Mathlib's elliptic-curve group through the proven bridge (toE, order of G = N); the tie to the code's ScalarMult/ToAffine is PointSpec. Correspondence: both directions for random and boundary key pairs with the peer key obtained four ways (derived, parsed compressed, parsed uncompressed, parsed hybrid) against the model and the affine specification.",
-        "level_note": "Conditional on PointSpec. Independence of key provenance follows from C08 (parsing returns the same normalised (x, y)) and is exercised by the four-encodings generator.",
-        "technique": "Lean 4 proof in Mathlib's curve group via a proven bridge (Secp.Props.C14, conditional on PointSpec) + differential correspondence",
-        "trusted_base": COMMON_TRUST + ["hand-written model mirrors the Go control flow; its point operations are the regenerated formula programs", "PointSpec (C03/C04 layer) is assumed by the theorems about points and validated on every run against the independent affine specification"],
-        "assumptions": ["PointSpec"],
+        "level_text": "Theorems (Lean 4 kernel): for all private keys a, b in [1,N-1], the secret computed from a and b*G is the 32-byte x coordinate of (a*b mod N)*G, hence both sides agree; every such private key has a finite on-curve public key. The group algebra is done in Mathlib's elliptic-curve group through the proven bridge (toE, order of G = N); the tie to the code's ScalarMult/ToAffine is PointSpec, proved in C03. Correspondence: both directions for random and boundary key pairs with the peer key obtained four ways (derived, parsed compressed, parsed uncompressed, parsed hybrid) against the model and the affine specification.",
+        "level_note": "PointSpec is proved in C03 (unconditional corollaries in the same file). Independence of key provenance follows from C08 (parsing returns the same normalised (x, y)) and is exercised by the four-encodings generator.",
+        "technique": "Lean 4 proof in Mathlib's curve group via a proven bridge (Secp.Props.C14, PointSpec proved in C03) + differential correspondence",
+        "trusted_base": COMMON_TRUST + ["hand-written model mirrors the Go control flow; its point operations are the regenerated formula programs", "PointSpec (what the point routines compute) is a THEOREM: Secp.Props.C03.pointSpec, built on C04 (regenerated formula programs), the kernel-checked table, NAF/endomorphism lemmas and card E = N; it is about value-level execution of the regenerated programs - that limbs realise values is C05+C16"],
+        "assumptions": [],
     },
     "C10": {
         "level_text": "Machine-checked theorems (Lean 4 kernel, no axioms beyond propext/Quot.sound/choice) about a statement-by-statement model of nonce.go: the resettable hmacsha256 object returns HMAC-SHA256(k, data written since the last (Re)set) after newHMACSHA256/ResetKey/Reset in any state (invariant: ipad/opad are the pads of k); the key buffer is key||hash[||extra[||version]] with exactly the documented padding/truncation/zero-fill rules; NonceRFC6979 returns the (i+1)-th candidate in [1,N-1] of the RFC 6979 section 3.2 generator (spec written from the RFC) for every key, hash, extra, version and i; results are in range; Schnorr's tagged key material differs from ECDSA's for every (key, hash). SHA-256 is treated as an arbitrary function of fixed output length. Correspondence: the grid key 0..40 x hash 0..70 x extra {0,31,32,33} x version {0,15,16,17} x i <= 16 in shuffled call orders with repeats (purity), random operation sequences on the HMAC object through a hook, and the Lean SHA-256 against crypto/sha256 around the padding boundaries.",
@@ -155,26 +162,26 @@ PROPS = {
         "assumptions": ["Add2/NegateVal operands canonical (their callers' invariant, itself a theorem: every operation returns a canonical value)"],
     },
     "C01": {
-        "level_text": "Theorems (Lean 4 kernel) about a model of sign/signRFC6979 whose point arithmetic is the regenerated formula programs: with a given nonce the model returns exactly the FIPS 186 signature (r = x(kG) mod N, s = k^-1(e + r d)) with s normalised into the lower half and the recovery code (parity of y, x >= N) adjusted for the flip; the deterministic signer is the first index of the RFC 6979 HMAC-SHA256 candidate stream whose signature exists; r, s non-zero, s <= (N-1)/2, code < 4; the hash is read as its first 32 bytes reduced mod N. These are conditional on PointSpec (the C03/C04 layer). Correspondence: every generated (key, hash) - all hash lengths 0..70, e >= N, all-zero/all-one, keys 1 and N-1, forced nonces through the sign hook incl. s = 0 - is signed by the real code twice around unrelated calls in all five encodings (object, DER, compact x2, crypto.Signer x2) and compared byte for byte with the model and with an independent textbook ECDSA + RFC 6979 + SHA-256 written in Lean, whose result is additionally verified by the textbook verifier.",
-        "level_note": "Conditional on PointSpec (see trusted base); HMAC-SHA256/SHA-256 are modelled in Lean and diffed against crypto/sha256 through every signature; termination of the retry loop is by fuel (a signature exists at index 0 with probability 1-2^-250).",
-        "technique": "Lean 4 proof over a model built on regenerated formula programs (Secp.Props.C01, conditional on PointSpec) + differential correspondence against the code and an independent Lean ECDSA oracle",
-        "trusted_base": COMMON_TRUST + ["Model.Ecdsa mirrors signature.go (hand-written control flow; point operations are the regenerated formula programs)", "PointSpec (scalar multiplication / addition / ToAffine / DecompressY compute the affine group law) is assumed by the protocol theorems; it is the statement of C03/C04 and is validated on every run by comparing the model with the independent affine specification"],
-        "assumptions": ["PointSpec", "0 < d < N"],
+        "level_text": "Theorems (Lean 4 kernel) about a model of sign/signRFC6979 whose point arithmetic is the regenerated formula programs: with a given nonce the model returns exactly the FIPS 186 signature (r = x(kG) mod N, s = k^-1(e + r d)) with s normalised into the lower half and the recovery code (parity of y, x >= N) adjusted for the flip; the deterministic signer is the first index of the RFC 6979 HMAC-SHA256 candidate stream whose signature exists; r, s non-zero, s <= (N-1)/2, code < 4; the hash is read as its first 32 bytes reduced mod N. The theorems are stated with the layer contract PointSpec as a hypothesis and restated unconditionally (PointSpec is proved in C03). Correspondence: every generated (key, hash) - all hash lengths 0..70, e >= N, all-zero/all-one, keys 1 and N-1, forced nonces through the sign hook incl. s = 0 - is signed by the real code twice around unrelated calls in all five encodings (object, DER, compact x2, crypto.Signer x2) and compared byte for byte with the model and with an independent textbook ECDSA + RFC 6979 + SHA-256 written in Lean, whose result is additionally verified by the textbook verifier.",
+        "level_note": "PointSpec is proved (C03), unconditional corollaries are in the same file; HMAC-SHA256/SHA-256 are modelled in Lean and diffed against crypto/sha256 through every signature; termination of the retry loop is by fuel (a signature exists at index 0 with probability 1-2^-250).",
+        "technique": "Lean 4 proof over a model built on regenerated formula programs (Secp.Props.C01, PointSpec proved in C03) + differential correspondence against the code and an independent Lean ECDSA oracle",
+        "trusted_base": COMMON_TRUST + ["Model.Ecdsa mirrors signature.go (hand-written control flow; point operations are the regenerated formula programs)", "PointSpec (scalar multiplication / addition / ToAffine / DecompressY compute the affine group law) is a THEOREM: Secp.Props.C03.pointSpec; every conditional theorem has an unconditional corollary in the same Props file"],
+        "assumptions": ["0 < d < N"],
     },
     "C02": {
-        "level_text": "Theorems (Lean 4 kernel): the Jacobian comparison at the end of Verify - r*Z^2 = X or (r < P-N and (r+N)*Z^2 = X) - holds exactly when x(R) mod N = r, for ALL X, Z != 0, r < N (this is where the rare x >= N signatures live); and the model of Verify returns exactly the textbook verdict (r, s non-zero, R = (e/s)G + (r/s)Q finite, x(R) mod N = r) for every hash, every Q on the curve and all r, s < N, conditional on PointSpec. Correspondence: valid signatures, (r, N-s), nonce-x >= N signatures CONSTRUCTED by key recovery (4+ per run) and their near misses, u1 G + u2 Q = identity by choosing the hash, single-bit and boundary mutations, wrong keys, random forgeries, the P-N guard boundary - real Verify vs model vs independent textbook verifier.",
-        "level_note": "Conditional on PointSpec (see trusted base). 'accepts both s and N-s' and 'rejects every other alteration' are properties of the textbook predicate; they follow from the group law (Secp.Proofs.SpecGroup) and are exercised by the generators.",
-        "technique": "Lean 4 proof (Secp.Props.C02: field-arithmetic lemma for all inputs + model = textbook verifier, conditional on PointSpec) + differential correspondence with directed generators",
-        "trusted_base": COMMON_TRUST + ["Model.Ecdsa mirrors signature.go (hand-written control flow; point operations are the regenerated formula programs)", "PointSpec (scalar multiplication / addition / ToAffine / DecompressY compute the affine group law) is assumed by the protocol theorems; it is the statement of C03/C04 and is validated on every run by comparing the model with the independent affine specification"],
-        "assumptions": ["PointSpec", "Q on the curve, r, s < N (the property's domain)"],
+        "level_text": "Theorems (Lean 4 kernel): the Jacobian comparison at the end of Verify - r*Z^2 = X or (r < P-N and (r+N)*Z^2 = X) - holds exactly when x(R) mod N = r, for ALL X, Z != 0, r < N (this is where the rare x >= N signatures live); and the model of Verify returns exactly the textbook verdict (r, s non-zero, R = (e/s)G + (r/s)Q finite, x(R) mod N = r) for every hash, every Q on the curve and all r, s < N (stated with the layer contract PointSpec, which C03 proves; unconditional corollary in the same file). Correspondence: valid signatures, (r, N-s), nonce-x >= N signatures CONSTRUCTED by key recovery (4+ per run) and their near misses, u1 G + u2 Q = identity by choosing the hash, single-bit and boundary mutations, wrong keys, random forgeries, the P-N guard boundary - real Verify vs model vs independent textbook verifier.",
+        "level_note": "PointSpec is proved in C03. 'accepts both s and N-s' and 'rejects every other alteration' are properties of the textbook predicate; they follow from the group law (Secp.Proofs.SpecGroup) and are exercised by the generators.",
+        "technique": "Lean 4 proof (Secp.Props.C02: field-arithmetic lemma for all inputs + model = textbook verifier, PointSpec proved in C03) + differential correspondence with directed generators",
+        "trusted_base": COMMON_TRUST + ["Model.Ecdsa mirrors signature.go (hand-written control flow; point operations are the regenerated formula programs)", "PointSpec (scalar multiplication / addition / ToAffine / DecompressY compute the affine group law) is a THEOREM: Secp.Props.C03.pointSpec; every conditional theorem has an unconditional corollary in the same Props file"],
+        "assumptions": ["Q on the curve, r, s < N (the property's domain)"],
     },
     "C07": {
         "project": proj_rec,
-        "level_text": "Theorems (Lean 4 kernel): for arbitrary (r, s, code, hash) with 0 < r < N, s < N, code < 4 the model of RecoverPublicKey succeeds exactly when the textbook SEC1 4.1.6 procedure does and returns the same key (conditional on PointSpec); it panics exactly for the documented misuse (no recovery code); Export maps high s to (N-s, code xor 1) and leaves low s alone; both compact layouts carry exactly Export's triple; ParseCompactSignature inverts ExportCompact for headers 27/31. Correspondence: produced signatures through object/Export/ExportCompact (both layouts, offsets 27, 31, 0)/SignCompact/RecoverCompact, high-s twins with their flipped codes (the F1 defect, now fixed, is caught here), all four codes, r around P-N with and without the overflow bit, x not on the curve, headers 0..255, r/s boundary values.",
-        "level_note": "Conditional on PointSpec (see trusted base). 'a returned key verifies the signature' and 'recovering from a produced signature returns the signer' are group-law consequences (Secp.Proofs.SpecGroup) exercised on every produced signature by the correspondence run.",
-        "technique": "Lean 4 proof (Secp.Props.C07, conditional on PointSpec) + differential correspondence incl. export/recover round trips",
-        "trusted_base": COMMON_TRUST + ["Model.Ecdsa mirrors signature.go (hand-written control flow; point operations are the regenerated formula programs)", "PointSpec (scalar multiplication / addition / ToAffine / DecompressY compute the affine group law) is assumed by the protocol theorems; it is the statement of C03/C04 and is validated on every run by comparing the model with the independent affine specification"],
-        "assumptions": ["PointSpec"],
+        "level_text": "Theorems (Lean 4 kernel): for arbitrary (r, s, code, hash) with 0 < r < N, s < N, code < 4 the model of RecoverPublicKey succeeds exactly when the textbook SEC1 4.1.6 procedure does and returns the same key (via the layer contract PointSpec, proved in C03); it panics exactly for the documented misuse (no recovery code); Export maps high s to (N-s, code xor 1) and leaves low s alone; both compact layouts carry exactly Export's triple; ParseCompactSignature inverts ExportCompact for headers 27/31. Correspondence: produced signatures through object/Export/ExportCompact (both layouts, offsets 27, 31, 0)/SignCompact/RecoverCompact, high-s twins with their flipped codes (the F1 defect, now fixed, is caught here), all four codes, r around P-N with and without the overflow bit, x not on the curve, headers 0..255, r/s boundary values.",
+        "level_note": "PointSpec is proved in C03. 'a returned key verifies the signature' and 'recovering from a produced signature returns the signer' are group-law consequences (Secp.Proofs.SpecGroup) exercised on every produced signature by the correspondence run.",
+        "technique": "Lean 4 proof (Secp.Props.C07, PointSpec proved in C03) + differential correspondence incl. export/recover round trips",
+        "trusted_base": COMMON_TRUST + ["Model.Ecdsa mirrors signature.go (hand-written control flow; point operations are the regenerated formula programs)", "PointSpec (scalar multiplication / addition / ToAffine / DecompressY compute the affine group law) is a THEOREM: Secp.Props.C03.pointSpec; every conditional theorem has an unconditional corollary in the same Props file"],
+        "assumptions": [],
     },
     "C17": {
         "correspondence": False,
@@ -204,8 +211,8 @@ PROPS = {
     },
     "C16": {
         "generator": "C16",
-        "level_text": "Static for-all over every execution path: tools/gotr T2 regenerates from /repo every path of addZ1AndZ2EqualsOne, addZ1EqualsZ2, addZ2EqualsOne, addGeneric, doubleZ1EqualsOne, doubleGeneric, AddNonConst (x3 alias patterns), DoubleNonConst (x2), ToAffine (with the inversion chain), isOnCurve, DecompressY, Inverse, SquareRootVal as lists of FieldVal operations and predicate tests; the Lean abstract interpreter absPath over (magnitude, normalised?) rejects any NegateVal with too small a magnitude argument, any Add/MulInt exceeding magnitude 63, any Mul/Square operand above 8 and any Equals/IsZero/IsOne/IsOdd on a value not known to be normalised; `decide +kernel` shows all paths pass and results end normalised. The same regenerated programs are run at value level by the Lean driver and diffed against the real routines (all relation classes x Z patterns x alias patterns).",
-        "level_note": "Trusted: Lean kernel; tools/gotr T2 (regenerated every run; its programs are executed against the real routines); the per-operation meaning of 'magnitude' is tied to limbs by C05's kernel theorems (the soundness theorem linking absPath to limb execution is stated in DESIGN.md as future work: today C16 proves the abstract contract is respected on every path, C05 proves each operation exact under that contract). Signature/Schnorr routines' field segments are not yet extracted.",
+        "level_text": "Static for-all over every execution path, with a soundness theorem down to limbs. tools/gotr T2 regenerates from /repo every path of addZ1AndZ2EqualsOne, addZ1EqualsZ2, addZ2EqualsOne, addGeneric, doubleZ1EqualsOne, doubleGeneric, AddNonConst (x3 alias patterns), DoubleNonConst (x2), ToAffine (with the inversion chain), isOnCurve, DecompressY, Inverse, SquareRootVal as lists of FieldVal operations and predicate tests. The abstract interpreter absPath over (magnitude, normalised?) rejects any NegateVal with too small a magnitude argument, any Add/MulInt exceeding magnitude 63, any Mul/Square operand above 8, any Equals/IsZero/IsOne/IsOdd on a value not known to be normalised and any use before definition; `decide +kernel` shows ALL paths pass and results end normalised. absPath_sound (proved from the C05 kernel theorems, i.e. about the regenerated limb kernels with Go wrap-around semantics): whenever absPath accepts a program, for ALL limb registers realising the input contract the limb-level execution and the value-level execution take the same branches and end in related states - no limb wraps, every comparison sees a normalised value, results depend only on the field values denoted. The same programs are run at value level by the driver and diffed against the real routines.",
+        "level_note": "Trusted: Lean kernel; tools/gotr T1/T2 (regenerated every run; kernels and programs executed against the real code). The routines' input contract (operands normalised; DecompressY's x of magnitude <= 8) is an assumption. The field segments of Verify/RecoverPublicKey/sign/Schnorr outside the point routines (a handful of Mul2/Normalize/Add calls) are covered by the hand-written models and the correspondence run, not by extracted paths.",
         "technique": "Lean 4 `decide +kernel` of an abstract interpreter on regenerated path programs + differential run of the same programs",
         "trusted_base": COMMON_TRUST + ["tools/gotr T2 path extraction (regenerated every run, executed against the real routines)"],
         "assumptions": ["inputs to point routines are normalised (their documented contract)"],
